@@ -82,7 +82,7 @@ def d1_threading(ctx):
     ctx.check(okw, fc, dl[0], f"wf_flat={src(wa) if wa else None}", "chunk i receives the table rows whose samples fall in chunk i",
               "the table slice handed to chunk i is not wf_flat.iloc[slices[i]]", key="cbin->chunk:wf_flat")
     sls = [n for n in walk_function(fc.node) if isinstance(n, ast.Assign) and loc_name(n.targets[0]) == "slices"]
-    if sls:
+    if sls and "searchsorted(" in src(sls[0].value) and "wf_flat['sample']" not in src(sls[0].value):
         # the sorted sample column may be converted once and held in a local: wf_samples = wf_flat['sample'].to_numpy()
         import copy as _copy
         duc0 = DefUse(fc.node)
